@@ -483,8 +483,9 @@ func gen(r *vlib.R) iter.Seq[Case] {
 	}
 	lvs := []lv{{1, false}, {2, true}, {2, false}}
 	return func(yield func(Case) bool) {
-		if os.Getenv("VERIF_C04_ONLY") == "tsdb" { // measuring aid: family C alone
-			genTSDB(r.Thorough(), yield)
+		// family C (real TSDBStores) first: it is the smallest family, so an overloaded machine that hits the deadline cuts
+		// the tail of the large fake-store families, never the only family that drives the real store.
+		if !genTSDB(r.Thorough(), yield) || os.Getenv("VERIF_C04_ONLY") == "tsdb" { // (env: measuring aid, family C alone)
 			return
 		}
 		for R := 1; R <= 3; R++ {
@@ -540,10 +541,7 @@ func gen(r *vlib.R) iter.Seq[Case] {
 				}
 			}
 		}
-		if !genCopies(r, ext, yield) {
-			return
-		}
-		genTSDB(r.Thorough(), yield)
+		genCopies(r, ext, yield)
 	}
 }
 
